@@ -10,7 +10,13 @@ tie       : (H) oracle-table correspondence: dbm.dbm_f.*, dbm.seawater.* and Flu
             handed to the Lean model as its library; the model must ask the questions the code asked
             (all of them, no others) and return the same outputs and the same cache K
 real code : the two REAL tuples (return_all vs the tuple assembled from the individual methods) are
-            compared for every generated particle / state
+            compared for every generated particle / state; the particle properties return_all computes but
+            does not return (viscosity, interfacial tension, fugacities) are compared with the individual
+            methods at the library boundary
+variant   : the model carries the CODE VARIANT of the two former defect sites (Model/Particle09.lean `Code`);
+            detect_code_variant() replays the two Lean witnesses on the real code on every run, the driver is
+            run with the detected variant, the evidence records it (`code_variant`, `claimed_theorem`) and an
+            obligation requires the repaired variant (for which the full statement is proved)
 """
 import math
 import time
@@ -749,10 +755,10 @@ def run(ctx, lean_ok):
     ctx.oblige('the tree under test has the REPAIRED text of both defect sites (liquid-total test; gas-row viscosity): the '
                'full-strength theorem TamocV.Props.C09.return_all_eq_individual is the one that applies to it', repaired,
                'detected variant %r: the witnesses of TamocV.Props.C09.zero_entry_density / viscosity_row_witness reproduce on the real code' % (CODE,))
-    nfl = ctx.n(130, 1500)
-    nin = ctx.n(60, 700)
+    nfl = ctx.n(130, 2500)
+    nin = ctx.n(60, 1200)
     # mixed-phase states whose flash takes 60-250 ms (stability analysis at its iteration limit)
-    state = dict(slow_budget=ctx.n(0, 15), nviol=0, ncases=0, nlines=0, nbad=0, worst=[0.], contracts=dict(nshape=0, ndirty=0, bad_shape=[], bad_dirty=[]))
+    state = dict(slow_budget=ctx.n(0, 20), nviol=0, ncases=0, nlines=0, nbad=0, worst=[0.], contracts=dict(nshape=0, ndirty=0, bad_shape=[], bad_dirty=[]))
     raises = {}
     todo = [('corpus', k) for k in range(len(CORPUS))] + [('fluid', None)] * nfl + [('inert', None)] * nin
     BATCH = 200            # cases per driver run: bounds the memory taken by the recorded tables
